@@ -37,6 +37,7 @@ func (w *world) Run(t *rt.Tape, trace bool) *core.Result {
 	k := len(p.Tasks)
 	conc := make([]*ops.Result, k)
 	shared := ops.CloneCircuit(p.Circ)
+	before := ops.Snapshot(shared)
 	rr := rt.Run(rt.Config{Trace: trace}, t, func() {
 		for i := 0; i < k; i++ {
 			i := i
@@ -63,6 +64,10 @@ func (w *world) Run(t *rt.Tape, trace bool) *core.Result {
 			res.Fail = &core.Failure{Clause: r.Clause, Detail: r.Violation}
 			return res
 		}
+	}
+	if after := ops.Snapshot(shared); after != before {
+		res.Fail = &core.Failure{Clause: "shared-circuit-modified", Detail: fmt.Sprintf("the calls wrote to the circuit value they share (signature up to the capacity of every member list, counts, gates)\nbefore:\n%s\nafter:\n%s", before, after)}
+		return res
 	}
 	// each task alone, on a fresh copy of the circuit, from the same randomness
 	solo := make([]*ops.Result, k)
